@@ -36,6 +36,8 @@ type Prog struct {
 
 	inlineNotes []string // new helper functions read as part of their callers (inline.go)
 	inlinedAway map[*types.Func]bool
+	origBody    map[*types.Func]*ast.BlockStmt // bodies as written, of functions that call new helpers
+	newCallees  map[*types.Func][]*types.Func  // the new helpers each of them calls
 }
 
 // the one package that is allowed to fail to load (cgo header missing in the sandbox)
